@@ -24,6 +24,29 @@ pub fn run(k: &str, c: &Value) -> Value {
                 Err(_) => json!({"panic": true}),
             }
         }
+        "c20.internals" => {
+            // engeom's own arithmetic upstream of the sparse solver (hook conformal_verif) together with the edge table it reads
+            use engeom::geom3::mesh::conformal_verif as cv;
+            let mesh = Mesh::new(p3s(&c["verts"]), faces_of(c), false);
+            let edges = match mesh.calc_edges() { Ok(e) => e, Err(_) => return json!({"edges_err": true}) };
+            if edges.boundary_loops.len() != 1 { return json!({"loops": edges.boundary_loops.len()}); }
+            let ib = edges.boundary_loops[0].clone();
+            let r = std::panic::catch_unwind(std::panic::AssertUnwindSafe(|| {
+                let fa = cv::face_angles(&edges).unwrap();
+                let df = cv::angle_defects(&edges, &ib).unwrap();
+                let tr = cv::laplacian_triplets(&edges).unwrap();
+                let bl = cv::boundary_lengths(&edges, &ib);
+                let bm = cv::boundary_vertex_masses(&bl);
+                let cs = cv::cumulative(&bl, -0.5);
+                json!({"edges": edges.edges.iter().map(|e| json!([e[0], e[1]])).collect::<Vec<_>>(),
+                       "face_edges": edges.face_edges.iter().map(|e| json!([e[0], e[1], e[2]])).collect::<Vec<_>>(),
+                       "edge_lengths": hxs(&edges.edge_lengths), "bound": ib,
+                       "angles": fa.iter().map(|a| json!([hx(a[0]), hx(a[1]), hx(a[2])])).collect::<Vec<_>>(),
+                       "defects": hxs(&df), "triplets": tr.iter().map(|t| json!([t.0, t.1, hx(t.2)])).collect::<Vec<_>>(),
+                       "blen": hxs(&bl), "bmass": hxs(&bm), "cumsum": hxs(&cs)})
+            }));
+            match r { Ok(v) => v, Err(_) => json!({"panic": true}) }
+        }
         "c20.uv" => {
             let verts = p3s(&c["verts"]);
             let faces = faces_of(c);
